@@ -22,7 +22,10 @@ ASSUMPTIONS = [
     "need induction: proved in Lean 4 (lean/Columns.lean, type-checked by bin/setup) and re-validated on every run by exhaustive "
     "evaluation of the executable column model (lemma_selftest: strings <= 5 over narrow/wide/combining, every a, b in [-3, width+3]); "
     "wcswidth additive over concatenation (dependency contract)",
-    "placement of zero-width characters next to a cut is compared up to attachment (statement is silent)",
+    "zero-width characters: the proof's column model covers the column-occupying characters and the width; the bounded suite demands that "
+    "zero-width characters are never invented or reordered and that one lying strictly INSIDE the requested columns is kept (it belongs to a "
+    "column that is held whole; the pinned tree lost it at the beginning of a partly included run - repaired, 87e3a26); at the two edges of "
+    "the range the statement is silent and nothing is demanded",
 ]
 
 N, W, Z = "a", "Ｅ", "́"
@@ -92,6 +95,16 @@ def cut_case(f, a, b, index=None):
         return f"columns {a}..{b - 1} show {base}, slice has {got_base}"
     if not is_subsequence(got_zw, zw):
         return f"zero-width characters {got_zw} are not taken in order from {zw}"
+    # a zero-width character strictly INSIDE the requested range (requested columns on both sides of it) belongs to a column that
+    # is held whole: it must not be lost (at the two edges the statement is silent, see ASSUMPTIONS)
+    col, inner = 0, []
+    for ch, at in cells(f):
+        w = wcwidth(ch)
+        if w == 0 and a < col < min(b, sum(wcwidth(c) for c, _ in cells(f))):
+            inner.append((ch, at))
+        col += w
+    if not is_subsequence(inner, got_zw):
+        return f"zero-width characters {inner} lie strictly inside columns {a}..{b - 1} but the slice has only {got_zw}"
     try:
         rw = r.width
     except ValueError as e:
